@@ -60,9 +60,7 @@ func buildExprs(exprs []Expression, builder Builder, joinCond string) {
 			switch v := expr.(type) {
 			case OrConditions:
 				if len(v.Exprs) == 1 {
-					if e, ok := v.Exprs[0].(Expr); ok {
-						wrapInParentheses = containsAndOr(e.SQL)
-					}
+					wrapInParentheses = rawSQLNeedsParentheses(v.Exprs[0])
 				}
 			case AndConditions:
 				if len(v.Exprs) == 1 {
@@ -71,14 +69,10 @@ func buildExprs(exprs []Expression, builder Builder, joinCond string) {
 					if or, ok := inner.(OrConditions); ok && len(or.Exprs) == 1 {
 						inner = or.Exprs[0]
 					}
-					if e, ok := inner.(Expr); ok {
-						wrapInParentheses = containsAndOr(e.SQL)
-					}
+					wrapInParentheses = rawSQLNeedsParentheses(inner)
 				}
-			case Expr:
-				wrapInParentheses = containsAndOr(v.SQL)
-			case NamedExpr:
-				wrapInParentheses = containsAndOr(v.SQL)
+			case Expr, NamedExpr:
+				wrapInParentheses = rawSQLNeedsParentheses(v)
 			}
 		}
 
@@ -91,6 +85,18 @@ func buildExprs(exprs []Expression, builder Builder, joinCond string) {
 			expr.Build(builder)
 		}
 	}
+}
+
+// rawSQLNeedsParentheses reports whether expr is a raw SQL condition (with positional or named
+// arguments) that contains an AND / OR keyword and thus has to be wrapped when it is combined
+func rawSQLNeedsParentheses(expr Expression) bool {
+	switch e := expr.(type) {
+	case Expr:
+		return containsAndOr(e.SQL)
+	case NamedExpr:
+		return containsAndOr(e.SQL)
+	}
+	return false
 }
 
 // containsAndOr reports whether the raw SQL contains an AND / OR keyword in any
@@ -218,11 +224,9 @@ func (not NotConditions) Build(builder Builder) {
 				negationBuilder.NegationBuild(builder)
 			} else {
 				builder.WriteString("NOT ")
-				e, wrapInParentheses := c.(Expr)
+				wrapInParentheses := rawSQLNeedsParentheses(c)
 				if wrapInParentheses {
-					if wrapInParentheses = containsAndOr(e.SQL); wrapInParentheses {
-						builder.WriteByte('(')
-					}
+					builder.WriteByte('(')
 				}
 
 				c.Build(builder)
@@ -252,11 +256,9 @@ func (not NotConditions) Build(builder Builder) {
 				}
 			}
 
-			e, wrapInParentheses := c.(Expr)
+			wrapInParentheses := rawSQLNeedsParentheses(c)
 			if wrapInParentheses {
-				if wrapInParentheses = containsAndOr(e.SQL); wrapInParentheses {
-					builder.WriteByte('(')
-				}
+				builder.WriteByte('(')
 			}
 
 			c.Build(builder)
